@@ -107,10 +107,11 @@ func NewLogger(config log.AccessLogConfig, logger log.Logger) gin.HandlerFunc {
 			return
 		}
 
-		// Note filter will modify the request/response headers, though
-		// they have already been written so it doesn't matter.
-		requestHeaders := requestHeaderFilter.Filter(c.Request.Header)
-		responseHeaders := responseHeaderFilter.Filter(c.Writer.Header())
+		// Note filter will modify the given headers, so filter a copy. The
+		// response headers are still used after the handler returns to write
+		// the response trailers.
+		requestHeaders := requestHeaderFilter.Filter(c.Request.Header.Clone())
+		responseHeaders := responseHeaderFilter.Filter(c.Writer.Header().Clone())
 
 		req := &loggedRequest{
 			Proto:           c.Request.Proto,
